@@ -6,7 +6,9 @@
     it, and what is known about every routine graph (prologue block, `ShapeR` of the wrapped
     body, arity typing) and about every activation (scratch convention: the frame has no `proto`;
     frame-pointer convention: the frame has `proto n r`, the arguments are the top of the
-    activation's stack base, and the source semantics' parameter cells hold them — `pInv`);
+    activation's stack base, and the source semantics' parameter cells hold them — `pInv`; the
+    by-reference arguments are copied into their scratch slots by the prologue — `refCopies_run`;
+    by-reference discipline: the reference cells of the active routines are valid — `PCtx.vinv`);
   * `callee_run`: from the `callsub` instruction, through the callee's prologue and body, back to
     the instruction after the `callsub` (uses the induction hypothesis at the callee — the fuel of
     `Src.eval` decreases at every call, so recursion needs no extra argument);
@@ -31,20 +33,24 @@ structure PCtx where
   dyn : Bool := false
   strict : Bool := false
 
-def PCtx.ign (P : PCtx) : List Nat := ignOf P.fp P.p
-
-/-- the by-reference discipline is in force (scratch-slot convention only) -/
-def PCtx.sref (P : PCtx) : Bool := P.strict && !P.fp
+def PCtx.ign (P : PCtx) : List Nat := ignOf P.fp P.p P.strict
 
 /-- the permitted deviations: the stack limit, and with run-time addressed slots outside the
-    by-reference discipline the range check -/
-def PCtx.dev (P : PCtx) : Fail → Prop := if P.dyn && !P.sref then devDyn else devOvf
+    by-reference discipline (`P.strict`) the range check -/
+def PCtx.dev (P : PCtx) : Fail → Prop := if P.dyn && !P.strict then devDyn else devOvf
 
 /-- the slots the invariants on the source world look at -/
-def PCtx.prot (P : PCtx) : List Nat := if P.sref then allRefSlots P.p else P.ign
+def PCtx.prot (P : PCtx) : List Nat := if P.strict then P.ign ++ allRefSlots P.p else P.ign
 
 /-- by-reference discipline: the reference cells of the active routines `A` are valid -/
-def PCtx.vinv (P : PCtx) (A : List Nat) : World → Prop := if P.sref then VSet P.p A else noInv
+def PCtx.vinv (P : PCtx) (A : List Nat) : World → Prop := if P.strict then VSet P.p A else noInv
+
+/-- the `frame_dig; store` pairs that copy the by-reference arguments from the frame into their
+    scratch slots (frame-pointer convention), last parameter first -/
+def refCopies (sd : SubDef) : List Instr :=
+  (((List.range sd.params.length).zip sd.params).reverse.filterMap
+    (fun (x : Nat × ParamKind × Var) => if x.2.1 == ParamKind.ref then
+      some [Instr.frameDig ((x.1 : Int) - (sd.params.length : Int)), Instr.store x.2.2] else none)).flatten
 
 theorem PCtx.dev_ovf (P : PCtx) : P.dev ovfF := by
   unfold PCtx.dev
@@ -66,9 +72,9 @@ def wrapBody (sd : SubDef) : Expr :=
   else if sd.hasRet then .ret (some sd.body) else .seq [sd.body, .ret none]
 
 /-- the prologue: scratch-slot convention — store the arguments, last one first;
-    frame-pointer convention (by-value parameters only) — `proto` -/
+    frame-pointer convention — `proto`, then the by-reference arguments are copied to their slots -/
 def prologue (fp : Bool) (sd : SubDef) : List Instr :=
-  if fp then [.proto sd.params.length (if sd.hasRet then 1 else 0)]
+  if fp then .proto sd.params.length (if sd.hasRet then 1 else 0) :: refCopies sd
   else (sd.params.reverse.map (·.2)).map Instr.store
 
 /-- what is known about the graph of subroutine `f` -/
@@ -78,8 +84,9 @@ structure SubOK (P : PCtx) (f : Nat) (sd : SubDef) : Prop where
   wt : wtR (subK P.fp P.p sd P.dyn P.strict) false true (if sd.hasRet then 1 else 0) sd.body = true
   pnodup : (sd.params.map (·.2)).Nodup
   p256 : P.fp = false → ∀ kv ∈ sd.params, kv.2 < 256
-  pval : P.fp = true → ∀ kv ∈ sd.params, kv.1 = ParamKind.val
-  pign : P.fp = true → ∀ kv ∈ sd.params, kv.2 ∈ P.ign
+  pval : P.fp = true → P.strict = false → ∀ kv ∈ sd.params, kv.1 = ParamKind.val
+  pign : P.fp = true → ∀ kv ∈ sd.params, kv.1 = ParamKind.val → kv.2 ∈ P.ign
+  pref : P.fp = true → ∀ kv ∈ sd.params, kv.1 = ParamKind.ref → kv.2 < 256 ∧ kv.2 ∉ P.ign
   plocal : P.fp = true → ∀ kv ∈ sd.params, kv.2 ∈ sd.locals
   snodup : (spillSlotsC P.fp sd).Nodup
   s256 : ∀ s ∈ spillSlotsC P.fp sd, s < 256
@@ -112,7 +119,7 @@ inductive RoutOK (P : PCtx) : MCtx → RCfg → RK → Option Nat → Prop
       findSub P.p f = some sd → X.r = some (subLabel f) → X.cs = fr :: cs' →
       fr.proto = some (sd.params.length, if sd.hasRet then 1 else 0) →
       X.base = st ++ σc → st.length = sd.params.length → fr.height = X.base.length →
-      X.ign = P.ign → X.inv = pInv sd st → X.dev = P.dev → X.prot = P.prot →
+      X.ign = P.ign → X.inv = (fun w => pInv sd st w ∧ P.vinv X.act w) → X.dev = P.dev → X.prot = P.prot → f ∈ X.act →
       RoutOK P X (subCfg P sd) (subK P.fp P.p sd P.dyn P.strict) (some f)
 
 theorem RoutOK.pg {P : PCtx} {X cfg K cur} (h : RoutOK P X cfg K cur) : X.Pg = P.Pg := by
@@ -128,57 +135,53 @@ theorem RoutOK.callees {P : PCtx} {X cfg K cur} (h : RoutOK P X cfg K cur) : cfg
 theorem mainK_callees {fp p dyn strict} : (mainK fp p dyn strict).callees = calleesOf p := by
   unfold mainK; split <;> rfl
 theorem subK_callees {fp p sd dyn strict} : (subK fp p sd dyn strict).callees = calleesOf p := by
-  unfold subK; split; rfl; split <;> rfl
+  unfold subK; (repeat' split) <;> rfl
 theorem mainK_dyn {fp p dyn strict} : (mainK fp p dyn strict).dyn = dyn := by
   unfold mainK; split <;> rfl
 theorem subK_dyn {fp p sd dyn strict} : (subK fp p sd dyn strict).dyn = dyn := by
-  unfold subK; split; rfl; split <;> rfl
+  unfold subK; (repeat' split) <;> rfl
 theorem subK_rv {fp p sd dyn strict} : (subK fp p sd dyn strict).rv = sd.hasRet := by
-  unfold subK; split; rfl; split <;> rfl
-theorem mainK_ign {fp p dyn strict} : (mainK fp p dyn strict).ign = ignOf fp p := by
-  unfold mainK
-  split
-  · rename_i h
-    simp only [Bool.and_eq_true, Bool.not_eq_true'] at h
-    rw [h.2]; rfl
-  · rfl
-theorem subK_ign {fp p sd dyn strict} : (subK fp p sd dyn strict).ign = ignOf fp p := by
-  unfold subK
-  split
-  · rename_i h; rw [h]; rfl
-  · rename_i h
-    have : fp = false := by simpa using h
-    rw [this]
-    split <;> rfl
-
+  unfold subK; (repeat' split) <;> rfl
+theorem mainK_rv {fp p dyn strict} : (mainK fp p dyn strict).rv = true := by
+  unfold mainK; split <;> rfl
+theorem mainK_strictB {fp p dyn strict} : (mainK fp p dyn strict).strict = strict := by
+  cases strict <;> rfl
+theorem subK_strictB {fp p sd dyn strict} : (subK fp p sd dyn strict).strict = strict := by
+  cases strict <;> cases fp <;> rfl
+theorem mainK_ign {fp p dyn strict} : (mainK fp p dyn strict).ign = ignOf fp p strict := by
+  cases strict <;> rfl
+theorem subK_ign {fp p sd dyn strict} : (subK fp p sd dyn strict).ign = ignOf fp p strict := by
+  cases strict <;> cases fp <;> rfl
 theorem mainK_own {fp p dyn strict} : (mainK fp p dyn strict).own = [] := by
   unfold mainK; split <;> rfl
 theorem subK_own_false {p sd dyn strict} : (subK false p sd dyn strict).own = [] := by
-  unfold subK; simp only [Bool.false_eq_true, if_false]; split <;> rfl
+  cases strict <;> rfl
 
-theorem PCtx.sref_iff (P : PCtx) : P.sref = true ↔ P.strict = true ∧ P.fp = false := by
-  simp [PCtx.sref]
+/-- under the by-reference discipline: the tables of the strict typing contexts -/
+theorem mainK_refAll {fp p dyn} : (mainK fp p dyn true).refAll = allRefSlots p := rfl
+theorem subK_refAll {fp p sd dyn} : (subK fp p sd dyn true).refAll = allRefSlots p := by cases fp <;> rfl
+theorem mainK_parAll {fp p dyn} : (mainK fp p dyn true).parAll = allParamSlots p := rfl
+theorem subK_parAll {fp p sd dyn} : (subK fp p sd dyn true).parAll = allParamSlots p := by cases fp <;> rfl
+theorem mainK_kinds {fp p dyn} : (mainK fp p dyn true).kinds = kindsOf p := rfl
+theorem subK_kinds {fp p sd dyn} : (subK fp p sd dyn true).kinds = kindsOf p := by cases fp <;> rfl
+theorem mainK_ref {fp p dyn} : (mainK fp p dyn true).ref = [] := rfl
+theorem subK_ref {fp p sd dyn} : (subK fp p sd dyn true).ref = refSlots sd := by cases fp <;> rfl
 
-/-- under the by-reference discipline the typing contexts are the strict ones -/
-theorem mainK_strict {p dyn} : mainK false p dyn true =
-    { callees := calleesOf p, rv := true, dyn := dyn, strict := true, refAll := allRefSlots p,
-      parAll := allParamSlots p, kinds := kindsOf p, okCalls := some (callsOf p.main) } := rfl
-theorem subK_strict {p sd dyn} : subK false p sd dyn true =
-    { callees := calleesOf p, rv := sd.hasRet, dyn := dyn, strict := true, ref := refSlots sd,
-      refAll := allRefSlots p, parAll := allParamSlots p, kinds := kindsOf p, okCalls := some (callsOf sd.body) } := rfl
+theorem allValSlots_params {p : Prog} {v : Nat} (h : v ∈ allValSlots p) : v ∈ allParamSlots p := by
+  obtain ⟨sd, hsd, hv⟩ := List.mem_flatMap.mp h
+  refine List.mem_flatMap.mpr ⟨sd, hsd, ?_⟩
+  unfold valSlots at hv
+  obtain ⟨kv, hkv, rfl⟩ := List.mem_map.mp hv
+  exact List.mem_map.mpr ⟨kv, (List.mem_filter.mp hkv).1, rfl⟩
 
-/-- outside it they are the plain ones -/
-theorem mainK_strict_false {fp p dyn strict} (h : (strict && !fp) = false) : (mainK fp p dyn strict).strict = false := by
-  unfold mainK; rw [h]; rfl
-theorem subK_strict_false {fp p sd dyn strict} (h : (strict && !fp) = false) : (subK fp p sd dyn strict).strict = false := by
-  unfold subK
-  split
-  · rfl
-  · rename_i hfp
-    have hfp' : fp = false := by simpa using hfp
-    rw [hfp'] at h
-    have : strict = false := by simpa using h
-    rw [this]; rfl
+/-- the ignored slots are parameter slots -/
+theorem ign_params {P : PCtx} {v : Nat} (h : v ∈ P.ign) : v ∈ allParamSlots P.p := by
+  unfold PCtx.ign ignOf at h
+  split at h
+  · split at h
+    · exact allValSlots_params h
+    · exact h
+  · cases h
 
 theorem RoutOK.kcallees {P : PCtx} {X cfg K cur} (h : RoutOK P X cfg K cur) : K.callees = calleesOf P.p := by
   cases h with
@@ -204,70 +207,85 @@ theorem RoutOK.kdyn {P : PCtx} {X cfg K cur} (h : RoutOK P X cfg K cur) : K.dyn 
   | sub => exact subK_dyn
   | subFp => exact subK_dyn
 
-theorem RoutOK.kstrict_false {P : PCtx} {X cfg K cur} (h : RoutOK P X cfg K cur) (hs : P.sref = false) :
-    K.strict = false := by
+theorem RoutOK.kstrict {P : PCtx} {X cfg K cur} (h : RoutOK P X cfg K cur) : K.strict = P.strict := by
   cases h with
-  | main => exact mainK_strict_false hs
-  | sub => exact subK_strict_false hs
-  | subFp => exact subK_strict_false hs
+  | main => exact mainK_strictB
+  | sub => exact subK_strictB
+  | subFp => exact subK_strictB
+
+/-- under the by-reference discipline the invariant of an activation contains the validity of the
+    reference cells of the active routines -/
+theorem RoutOK.inv_vset {P : PCtx} {X cfg K cur} (h : RoutOK P X cfg K cur) (hs : P.strict = true) {w : World}
+    (hw : X.inv w) : VSet P.p X.act w := by
+  cases h with
+  | main _ _ _ hinv => rw [hinv, PCtx.vinv, hs] at hw; exact hw
+  | sub _ _ _ _ _ _ _ hinv => rw [hinv, PCtx.vinv, hs] at hw; exact hw
+  | subFp _ _ _ _ _ _ _ _ _ _ hinv =>
+    rw [hinv] at hw
+    have := hw.2
+    rw [PCtx.vinv, hs] at this
+    exact this
+
+/-- the reference cells a routine may dereference are those of its own activation -/
+theorem RoutOK.kref {P : PCtx} {X cfg K cur} (h : RoutOK P X cfg K cur) (hs : P.strict = true) :
+    ∀ v, v ∈ K.ref → ∃ f sd, f ∈ X.act ∧ findSub P.p f = some sd ∧ v ∈ refSlots sd := by
+  intro v hv
+  cases h with
+  | main => rw [hs, mainK_ref] at hv; cases hv
+  | @sub f sd _ _ _ _ hsd _ _ _ _ _ _ _ hact => rw [hs, subK_ref] at hv; exact ⟨f, sd, hact, hsd, hv⟩
+  | @subFp f sd _ _ _ _ _ _ hsd _ _ _ _ _ _ _ _ _ _ hact => rw [hs, subK_ref] at hv; exact ⟨f, sd, hact, hsd, hv⟩
+
+theorem RoutOK.krefAll {P : PCtx} {X cfg K cur} (h : RoutOK P X cfg K cur) (hs : P.strict = true) :
+    K.refAll = allRefSlots P.p := by
+  cases h with
+  | main => rw [hs]; exact mainK_refAll
+  | sub => rw [hs]; exact subK_refAll
+  | subFp => rw [hs]; exact subK_refAll
 
 /-- with run-time addressed slots: the range failures are permitted deviations, or the by-reference
     discipline holds -/
 theorem RoutOK.fdyn {P : PCtx} {X cfg K cur} (h : RoutOK P X cfg K cur) :
-    K.dyn = true → K.ign = [] → (X.dev rangeL ∧ X.dev rangeS ∧ X.prot = []) ∨
-      (K.strict = true ∧ ∀ w, X.inv w → ∀ v, v ∈ K.ref → ∃ s, getSlot w.scratch v = .u s ∧ s < 256 ∧ s ∉ X.prot) := by
+    K.dyn = true → (K.ign = [] ∨ K.strict = true) → (X.dev rangeL ∧ X.dev rangeS ∧ X.prot = [] ∧ X.ign = []) ∨
+      (K.strict = true ∧ ∀ w, X.inv w → ∀ v, v ∈ K.ref →
+        ∃ s, getSlot w.scratch v = .u s ∧ s < 256 ∧ s ∉ X.prot ∧ s ∉ X.ign) := by
   intro hd hI
-  cases hs : P.sref with
+  cases hs : P.strict with
   | false =>
     refine .inl ?_
-    rw [h.dev, h.prot, PCtx.dev, PCtx.prot, hs, ← h.kdyn, hd, ← h.ign, ← h.kign, hI]
-    exact ⟨.inr (.inl rfl), .inr (.inr rfl), rfl⟩
+    have hI' : K.ign = [] := by
+      rcases hI with hI | hI
+      · exact hI
+      · rw [h.kstrict, hs] at hI; cases hI
+    rw [h.dev, h.prot, PCtx.dev, PCtx.prot, hs, ← h.kdyn, hd, ← h.ign, ← h.kign, hI']
+    exact ⟨.inr (.inl rfl), .inr (.inr rfl), rfl, rfl⟩
   | true =>
-    obtain ⟨hstr, hfp⟩ := P.sref_iff.mp hs
-    refine .inr ?_
-    cases h with
-    | main =>
-      rw [hstr, hfp]
-      exact ⟨rfl, fun w _ v hv => by cases hv⟩
-    | @sub f sd fr cs' _ _ hsd _ _ _ _ hinv _ hprot hact =>
-      rw [hstr, hfp]
-      refine ⟨rfl, fun w hw v hv => ?_⟩
-      rw [hinv, PCtx.vinv, hs] at hw
-      obtain ⟨s, h1, h2, h3⟩ := hw f hact sd hsd v hv
-      refine ⟨s, h1, h2, ?_⟩
-      rw [hprot, PCtx.prot, hs]
-      exact fun hh => h3 (allRefSlots_params hh)
-    | subFp _ hfp' => rw [hfp] at hfp'; cases hfp'
+    refine .inr ⟨by rw [h.kstrict, hs], fun w hw v hv => ?_⟩
+    obtain ⟨f, sd, hact, hsd, hvs⟩ := h.kref hs v hv
+    obtain ⟨s, h1, h2, h3⟩ := h.inv_vset hs hw f hact sd hsd v hvs
+    refine ⟨s, h1, h2, ?_, ?_⟩
+    · rw [h.prot, PCtx.prot, hs]
+      simp only [if_true, List.mem_append, not_or]
+      exact ⟨fun hh => h3 (ign_params hh), fun hh => h3 (allRefSlots_params hh)⟩
+    · rw [h.ign]
+      exact fun hh => h3 (ign_params hh)
 
 theorem RoutOK.fprot {P : PCtx} {X cfg K cur} (h : RoutOK P X cfg K cur) : K.strict = false → X.prot = X.ign := by
   intro hk
-  cases hs : P.sref with
-  | false => rw [h.prot, h.ign, PCtx.prot, hs]; rfl
-  | true =>
-    obtain ⟨hstr, hfp⟩ := P.sref_iff.mp hs
-    cases h with
-    | main => rw [hstr, hfp] at hk; cases hk
-    | sub => rw [hstr, hfp] at hk; cases hk
-    | subFp _ hfp' => rw [hfp] at hfp'; cases hfp'
+  rw [h.kstrict] at hk
+  rw [h.prot, h.ign, PCtx.prot, hk]
+  rfl
 
 theorem RoutOK.fprotS {P : PCtx} {X cfg K cur} (h : RoutOK P X cfg K cur) :
     ∀ v, v ∉ K.ign → K.refAll.contains v = false → v ∉ X.prot := by
   intro v hv hr
-  cases hs : P.sref with
-  | false => rw [h.prot, PCtx.prot, hs, ← h.ign, ← h.kign]; exact hv
+  rw [h.kign, h.ign] at hv
+  cases hs : P.strict with
+  | false => rw [h.prot, PCtx.prot, hs]; exact hv
   | true =>
-    obtain ⟨hstr, hfp⟩ := P.sref_iff.mp hs
     rw [h.prot, PCtx.prot, hs]
-    cases h with
-    | main =>
-      rw [hstr, hfp] at hr
-      have hr' : (allRefSlots P.p).contains v = false := hr
-      simpa using hr'
-    | sub =>
-      rw [hstr, hfp] at hr
-      have hr' : (allRefSlots P.p).contains v = false := hr
-      simpa using hr'
-    | subFp _ hfp' => rw [hfp] at hfp'; cases hfp'
+    rw [h.krefAll hs] at hr
+    simp only [if_true, List.mem_append, not_or]
+    exact ⟨hv, by simpa using hr⟩
 
 /-- the current routine of an activation has a graph -/
 theorem RoutOK.present {P : PCtx} {X cfg K f} (h : RoutOK P X cfg K (some f)) : Present P f := by
@@ -280,13 +298,24 @@ theorem RoutOK.present {P : PCtx} {X cfg K f} (h : RoutOK P X cfg K (some f)) : 
 
 /-! ### frame-pointer convention: reading a parameter -/
 
-theorem frameDig_step {cx : Ctx} {X : MCtx} {fr : GFrame} {cs' : List GFrame} {n r i : Nat} {st σc : List Val} {val : Val}
+theorem beq_val {k : ParamKind} (h : (k == ParamKind.val) = true) : k = ParamKind.val := by
+  cases k with
+  | val => rfl
+  | ref => exact absurd h (by decide)
+
+theorem beq_ref {k : ParamKind} (h : (k == ParamKind.ref) = true) : k = ParamKind.ref := by
+  cases k with
+  | ref => rfl
+  | val => exact absurd h (by decide)
+
+/-- `frame_dig (i - n)` at position `j` of a block pushes argument `i` of the activation -/
+theorem frameDig_step_at {cx : Ctx} {X : MCtx} {fr : GFrame} {cs' : List GFrame} {n r i : Nat} {st σc : List Val} {val : Val}
     (hcs : X.cs = fr :: cs') (hpr : fr.proto = some (n, r)) (hbase : X.base = st ++ σc) (hst : st.length = n)
     (hh : fr.height = X.base.length) (hi : i < n) (hval : st.reverse[i]? = some val)
-    (b : Nat) (blk : Block) (m : MS) (hb : X.G[b]? = some blk) (hops : blk.ops = [.frameDig ((i : Int) - (n : Int))]) :
-    gstepP cx X.Pg (X.st ⟨b, 0⟩ (X.onBase m)) =
+    (b j : Nat) (blk : Block) (m : MS) (hb : X.G[b]? = some blk) (hx : blk.ops[j]? = some (.frameDig ((i : Int) - (n : Int)))) :
+    gstepP cx X.Pg (X.st ⟨b, j⟩ (X.onBase m)) =
       (match pushV (X.onBase m) val with
-       | .ok m' => .next (X.st ⟨b, 1⟩ m')
+       | .ok m' => .next (X.st ⟨b, j + 1⟩ m')
        | .halt o => .halt o) := by
   have hbelow : belowArgsG fr ((i : Int) - (n : Int)) = false := by
     simp only [belowArgsG, hpr, decide_eq_false_iff_not, not_and]
@@ -304,10 +333,20 @@ theorem frameDig_step {cx : Ctx} {X : MCtx} {fr : GFrame} {cs' : List GFrame} {n
     congr 1
     omega
   have hneg : ¬ (((σc.length + i : Nat) : Int) < 0) := by omega
-  simp only [gstepP, MCtx.st, MCtx.onBase, X.hG, hb, hops, List.getElem?_cons_zero, execSimple, hcs, hbelow,
+  simp only [gstepP, MCtx.st, MCtx.onBase, X.hG, hb, hx, execSimple, hcs, hbelow,
     Bool.false_eq_true, if_false, hidx, Int.toNat_natCast, hneg]
   rw [if_neg hlt, hget]
   rfl
+
+theorem frameDig_step {cx : Ctx} {X : MCtx} {fr : GFrame} {cs' : List GFrame} {n r i : Nat} {st σc : List Val} {val : Val}
+    (hcs : X.cs = fr :: cs') (hpr : fr.proto = some (n, r)) (hbase : X.base = st ++ σc) (hst : st.length = n)
+    (hh : fr.height = X.base.length) (hi : i < n) (hval : st.reverse[i]? = some val)
+    (b : Nat) (blk : Block) (m : MS) (hb : X.G[b]? = some blk) (hops : blk.ops = [.frameDig ((i : Int) - (n : Int))]) :
+    gstepP cx X.Pg (X.st ⟨b, 0⟩ (X.onBase m)) =
+      (match pushV (X.onBase m) val with
+       | .ok m' => .next (X.st ⟨b, 1⟩ m')
+       | .halt o => .halt o) :=
+  frameDig_step_at hcs hpr hbase hst hh hi hval b 0 blk m hb (by rw [hops]; rfl)
 
 /-- the entries of `fpParams`: parameter `i` is read with `frame_dig (i - n)` -/
 theorem getElem?_lt {α} {l : List α} {i : Nat} {x : α} (h : l[i]? = some x) : i < l.length := by
@@ -345,37 +384,200 @@ theorem fpParams_of_param {sd : SubDef} {i : Nat} {v : Var} (h : sd.params[i]? =
   rw [List.getElem?_eq_some_iff]
   exact ⟨by simpa using hlt, by simp⟩
 
+/-! ### frame-pointer convention: the by-reference arguments are copied into their slots -/
+
+/-- the by-reference parameters with their positions, last one first -/
+def refPairs (sd : SubDef) : List (Nat × Var) :=
+  ((List.range sd.params.length).zip sd.params).reverse.filterMap
+    (fun (x : Nat × ParamKind × Var) => if x.2.1 == ParamKind.ref then some (x.1, x.2.2) else none)
+
+theorem refCopies_eq (sd : SubDef) : refCopies sd =
+    (refPairs sd).flatMap (fun x => [Instr.frameDig ((x.1 : Int) - (sd.params.length : Int)), Instr.store x.2]) := by
+  unfold refCopies refPairs
+  generalize ((List.range sd.params.length).zip sd.params).reverse = l
+  induction l with
+  | nil => rfl
+  | cons x l ih =>
+    by_cases h : (x.2.1 == ParamKind.ref) = true
+    · simp only [List.filterMap_cons, h, if_true, List.flatten_cons, List.flatMap_cons, ih]
+    · simp only [List.filterMap_cons, h, Bool.false_eq_true, if_false, ih]
+
+theorem mem_refPairs {sd : SubDef} {x : Nat × Var} (h : x ∈ refPairs sd) :
+    x.1 < sd.params.length ∧ sd.params[x.1]? = some (ParamKind.ref, x.2) := by
+  unfold refPairs at h
+  obtain ⟨⟨i, k, v⟩, hmem, hsome⟩ := List.mem_filterMap.mp h
+  obtain ⟨j, hj⟩ := List.mem_iff_getElem?.mp (List.mem_reverse.mp hmem)
+  rw [List.getElem?_zip_eq_some] at hj
+  obtain ⟨h1, h2⟩ := hj
+  have hlt : j < sd.params.length := getElem?_lt h2
+  have hji : j = i := by
+    obtain ⟨_, hh⟩ := List.getElem?_eq_some_iff.mp h1
+    simpa using hh
+  subst hji
+  simp only [] at hsome
+  split at hsome
+  · rename_i hk
+    simp only [Option.some.injEq] at hsome
+    subst hsome
+    exact ⟨hlt, by rw [h2, beq_ref hk]⟩
+  · cases hsome
+
+theorem refPairs_of_param {sd : SubDef} {i : Nat} {v : Var} (h : sd.params[i]? = some (ParamKind.ref, v)) :
+    (i, v) ∈ refPairs sd := by
+  unfold refPairs
+  have hlt : i < sd.params.length := getElem?_lt h
+  refine List.mem_filterMap.mpr ⟨(i, ParamKind.ref, v), List.mem_reverse.mpr ?_, by simp only []; rw [if_pos (by decide)]⟩
+  refine List.mem_iff_getElem?.mpr ⟨i, ?_⟩
+  rw [List.getElem?_zip_eq_some]
+  refine ⟨?_, h⟩
+  rw [List.getElem?_eq_some_iff]
+  exact ⟨by simpa using hlt, by simp⟩
+
+theorem sublist_filterMap_map {α β γ} (f : α → Option β) (g : β → γ) (h : α → γ)
+    (hfg : ∀ x y, f x = some y → g y = h x) : ∀ l : List α, ((l.filterMap f).map g).Sublist (l.map h)
+  | [] => .slnil
+  | x :: l => by
+    simp only [List.filterMap_cons, List.map_cons]
+    cases hx : f x with
+    | none => exact .cons _ (sublist_filterMap_map f g h hfg l)
+    | some y =>
+      simp only [List.map_cons]
+      rw [hfg x y hx]
+      exact .cons_cons _ (sublist_filterMap_map f g h hfg l)
+
+theorem refPairs_nodup {sd : SubDef} (hnd : (sd.params.map (·.2)).Nodup) : ((refPairs sd).map (·.2)).Nodup := by
+  have hsub := sublist_filterMap_map
+    (fun (x : Nat × ParamKind × Var) => if x.2.1 == ParamKind.ref then some (x.1, x.2.2) else none)
+    (fun (y : Nat × Var) => y.2) (fun x => x.2.2)
+    (fun x y hxy => by
+      split at hxy
+      · cases hxy; rfl
+      · cases hxy)
+    ((List.range sd.params.length).zip sd.params).reverse
+  refine List.Nodup.sublist hsub ?_
+  rw [List.map_reverse]
+  refine nodup_reverse_of ?_
+  have : ((List.range sd.params.length).zip sd.params).map (fun x => x.2.2) = sd.params.map (·.2) := by
+    rw [show (fun (x : Nat × ParamKind × Var) => x.2.2) = (fun (y : ParamKind × Var) => y.2) ∘ Prod.snd from rfl,
+      ← List.map_map, List.map_snd_zip (by simp)]
+  rw [this]
+  exact hnd
+
+/-- the copies, run on the machine: every pair `frame_dig; store` moves one argument into its
+    slot (unless the operand stack is full) -/
+theorem refCopies_run {cx : Ctx} {X : MCtx} {fr : GFrame} {cs' : List GFrame} {n r : Nat} {st σc : List Val}
+    (hcs : X.cs = fr :: cs') (hpr : fr.proto = some (n, r)) (hbase : X.base = st ++ σc) (hst : st.length = n)
+    (hh : fr.height = X.base.length) {b : Nat} {blk : Block} (hb : X.G[b]? = some blk) {ic : List Nat}
+    {bcs : List Bytes} :
+    ∀ (L : List (Nat × Var)) (pre : List Instr) (wm : World),
+      blk.ops = pre ++ L.flatMap (fun x => [Instr.frameDig ((x.1 : Int) - (n : Int)), Instr.store x.2]) →
+      (∀ x ∈ L, x.1 < n ∧ x.2 < 256) →
+      HaltsP cx X.Pg (X.st ⟨b, pre.length⟩ (X.onBase ⟨[], ic, bcs, wm⟩)) (.fail ovfF) ∨
+      ReachP cx X.Pg (X.st ⟨b, pre.length⟩ (X.onBase ⟨[], ic, bcs, wm⟩))
+        (X.st ⟨b, blk.ops.length⟩ (X.onBase ⟨[], ic, bcs,
+          { wm with scratch := bindAll (L.map (fun x => (x.2, (st.reverse[x.1]?).getD (.u 0)))) wm.scratch }⟩))
+  | [], pre, wm, hops, _ => by
+    simp only [List.flatMap_nil, List.append_nil] at hops
+    rw [hops]
+    exact .inr (.refl _)
+  | (i, v) :: L, pre, wm, hops, hL => by
+    obtain ⟨hi, hv⟩ := hL (i, v) (List.mem_cons_self ..)
+    simp only [List.flatMap_cons, List.cons_append, List.nil_append] at hops
+    have hx1 : blk.ops[pre.length]? = some (.frameDig ((i : Int) - (n : Int))) := by simp [hops]
+    have hx2 : blk.ops[pre.length + 1]? = some (.store v) := by
+      rw [hops, List.getElem?_append_right (by omega)]
+      simp
+    have hlt : i < st.reverse.length := by rw [List.length_reverse, hst]; exact hi
+    have hval : st.reverse[i]? = some st.reverse[i] := List.getElem?_eq_getElem hlt
+    have s1 := frameDig_step_at (cx := cx) hcs hpr hbase hst hh hi hval b pre.length blk ⟨[], ic, bcs, wm⟩ hb hx1
+    by_cases hfull : (X.onBase ⟨[], ic, bcs, wm⟩).stack.length < maxStack
+    · simp only [pushV, hfull, if_true] at s1
+      have s2 : gstepP cx X.Pg (X.st ⟨b, pre.length + 1⟩ ⟨st.reverse[i] :: (X.onBase ⟨[], ic, bcs, wm⟩).stack, ic, bcs, wm⟩) =
+          .next (X.st ⟨b, pre.length + 1 + 1⟩ (X.onBase ⟨[], ic, bcs, { wm with scratch := setSlot wm.scratch v st.reverse[i] }⟩)) := by
+        refine step_op hb hx2 ?_
+        simp only [execSimple, hv, if_true, MCtx.onBase, List.nil_append]
+      have hops' : blk.ops = (pre ++ [Instr.frameDig ((i : Int) - (n : Int)), Instr.store v]) ++
+          L.flatMap (fun x => [Instr.frameDig ((x.1 : Int) - (n : Int)), Instr.store x.2]) := by
+        rw [hops]; simp
+      have ih := refCopies_run hcs hpr hbase hst hh hb (cx := cx) (ic := ic) (bcs := bcs) L _
+        { wm with scratch := setSlot wm.scratch v st.reverse[i] } hops'
+        (fun x hx => hL x (List.mem_cons_of_mem _ hx))
+      have hlen2 : (pre ++ [Instr.frameDig ((i : Int) - (n : Int)), Instr.store v]).length = pre.length + 1 + 1 := by simp
+      rw [hlen2] at ih
+      have two : ReachP cx X.Pg (X.st ⟨b, pre.length⟩ (X.onBase ⟨[], ic, bcs, wm⟩))
+          (X.st ⟨b, pre.length + 1 + 1⟩ (X.onBase ⟨[], ic, bcs, { wm with scratch := setSlot wm.scratch v st.reverse[i] }⟩)) :=
+        (ReachP.step s1).trans (.step s2)
+      rcases ih with ih | ih
+      · exact .inl (two.halts ih)
+      · refine .inr (two.trans ?_)
+        simp only [List.map_cons, hval, Option.getD_some]
+        exact ih
+    · simp only [pushV, hfull, if_false] at s1
+      exact .inl (.step s1)
+
+/-- the own by-value parameters of a routine under the frame-pointer convention -/
+theorem subK_own_true {P : PCtx} {sd : SubDef} {f : Nat} (hS : SubOK P f sd) (hfp : P.fp = true) {v : Nat}
+    (hown : v ∈ (subK P.fp P.p sd P.dyn P.strict).own) : ∃ kv, kv ∈ sd.params ∧ kv.1 = ParamKind.val ∧ kv.2 = v := by
+  rw [hfp] at hown
+  cases hs : P.strict with
+  | true =>
+    rw [hs] at hown
+    have hown' : v ∈ valSlots sd := hown
+    unfold valSlots at hown'
+    obtain ⟨kv, hkv, hkv2⟩ := List.mem_map.mp hown'
+    obtain ⟨hmem, hk⟩ := List.mem_filter.mp hkv
+    exact ⟨kv, hmem, beq_val hk, hkv2⟩
+  | false =>
+    rw [hs] at hown
+    have hown' : v ∈ sd.params.map (·.2) := hown
+    obtain ⟨kv, hkv, hkv2⟩ := List.mem_map.mp hown'
+    exact ⟨kv, hkv, hS.pval hfp hs kv hkv, hkv2⟩
+
 theorem RoutOK.facts {P : PCtx} (hP : ProgOK P) {X cfg K cur} (h : RoutOK P X cfg K cur) :
     RFacts P.cx X cfg K := by
   have hvinv : ∀ A, X.prot = P.prot → ∀ w w' : World,
       (∀ s, s ∈ X.prot → getSlot w'.scratch s = getSlot w.scratch s) → P.vinv A w → P.vinv A w' := by
     intro A hprot w w' hsame hw
     unfold PCtx.vinv at hw ⊢
-    cases hs : P.sref with
-    | false => simp only [hs, Bool.false_eq_true, if_false]; trivial
+    cases hs : P.strict with
+    | false => simp only [Bool.false_eq_true, if_false]; trivial
     | true =>
       simp only [hs, if_true] at hw ⊢
       refine hw.congr (fun s hsm => hsame s ?_)
-      rw [hprot, PCtx.prot, hs]; exact hsm
+      rw [hprot, PCtx.prot, hs]
+      simp only [if_true, List.mem_append]
+      exact .inr hsm
   refine ⟨h.kign, ?_, ?_, ?_, h.fdyn, h.fprot, h.fprotS, ?_, ?_⟩
   · -- the invariant only looks at the slots `prot`
     cases h with
     | main _ _ _ hinv _ _ hprot => intro w w' hsame hw; rw [hinv] at hw ⊢; exact hvinv _ hprot w w' hsame hw
     | sub _ _ _ _ _ _ _ hinv _ hprot => intro w w' hsame hw; rw [hinv] at hw ⊢; exact hvinv _ hprot w w' hsame hw
-    | @subFp f sd fr cs' st σc hpg hfp hsd hr hcs hpr hbase hlen hh hign hinv hdev hprot =>
-      have hS := hP f sd hsd (RoutOK.present (.subFp hpg hfp hsd hr hcs hpr hbase hlen hh hign hinv hdev hprot))
+    | @subFp f sd fr cs' st σc hpg hfp hsd hr hcs hpr hbase hlen hh hign hinv hdev hprot hact =>
+      have hS := hP f sd hsd (RoutOK.present (.subFp hpg hfp hsd hr hcs hpr hbase hlen hh hign hinv hdev hprot hact))
       intro w w' hsame hw
       rw [hinv] at hw ⊢
+      refine ⟨?_, hvinv _ hprot w w' hsame hw.2⟩
       intro pr hpr
       have hmem : pr.1 ∈ sd.params.map (·.2) := (List.of_mem_zip hpr).1
       obtain ⟨kv, hkv, hkv2⟩ := List.mem_map.mp hmem
       have : pr.1 ∈ X.prot := by
-        rw [hprot, PCtx.prot]
-        have : P.sref = false := by simp [PCtx.sref, hfp]
-        rw [this, ← hkv2]
-        exact hS.pign hfp kv hkv
+        rw [hprot, PCtx.prot, ← hkv2]
+        cases hk : kv.1 with
+        | val =>
+          have := hS.pign hfp kv hkv hk
+          split
+          · exact List.mem_append.mpr (.inl this)
+          · exact this
+        | ref =>
+          cases hs : P.strict with
+          | false => rw [hS.pval hfp hs kv hkv] at hk; cases hk
+          | true =>
+            simp only [if_true]
+            refine List.mem_append.mpr (.inr (mem_allRefSlots hsd ?_))
+            unfold refSlots
+            exact List.mem_map.mpr ⟨kv, List.mem_filter.mpr ⟨hkv, by rw [hk]; rfl⟩, rfl⟩
       rw [hsame pr.1 this]
-      exact hw pr hpr
+      exact hw.1 pr hpr
   · cases h <;> rfl
   · cases h with
     | main _ hr => exact .main rfl hr
@@ -383,13 +585,12 @@ theorem RoutOK.facts {P : PCtx} (hP : ProgOK P) {X cfg K cur} (h : RoutOK P X cf
     | subFp _ hfp _ hr hcs hpr hbase hlen hh =>
       refine .subFp rfl hr hcs hpr hh ?_ ?_
       · rw [hbase, List.length_append]; omega
-      · simp only [subK, hfp, if_true]
+      · rw [subK_rv]
   · -- reads of own parameters
     cases h with
     | main => intro v pr hf; cases hf
     | sub _ hfp => intro v pr hf; simp only [subCfg, hfp, Bool.false_eq_true, if_false, List.find?_nil] at hf; cases hf
-    | @subFp f sd fr cs' st σc hpg hfp hsd hr hcs hpr hbase hlen hh hign hinv hdev hprot =>
-      have hS := hP f sd hsd (RoutOK.present (.subFp hpg hfp hsd hr hcs hpr hbase hlen hh hign hinv hdev hprot))
+    | @subFp f sd fr cs' st σc hpg hfp hsd hr hcs hpr hbase hlen hh hign hinv hdev hprot hact =>
       intro v pr hf
       simp only [subCfg, hfp, if_true] at hf
       have hmem := List.mem_of_find?_eq_some hf
@@ -408,7 +609,7 @@ theorem RoutOK.facts {P : PCtx} (hP : ProgOK P) {X cfg K cur} (h : RoutOK P X cf
           refine ⟨?_, hval⟩
           rw [List.getElem?_map, hpi, ← hv]
           rfl
-        exact hw (v, val) hz
+        exact hw.1 (v, val) hz
       · intro b blk m hb hops
         rw [hidx] at hops
         exact frameDig_step hcs hpr hbase hlen hh hi hval b blk m hb hops
@@ -416,13 +617,11 @@ theorem RoutOK.facts {P : PCtx} (hP : ProgOK P) {X cfg K cur} (h : RoutOK P X cf
     cases h with
     | main => intro v _ hown; rw [mainK_own] at hown; cases hown
     | sub _ hfp => intro v _ hown; rw [hfp, subK_own_false] at hown; cases hown
-    | @subFp f sd fr cs' st σc hpg hfp hsd hr hcs hpr hbase hlen hh hign hinv hdev hprot =>
-      have hS := hP f sd hsd (RoutOK.present (.subFp hpg hfp hsd hr hcs hpr hbase hlen hh hign hinv hdev hprot))
+    | @subFp f sd fr cs' st σc hpg hfp hsd hr hcs hpr hbase hlen hh hign hinv hdev hprot hact =>
+      have hS := hP f sd hsd (RoutOK.present (.subFp hpg hfp hsd hr hcs hpr hbase hlen hh hign hinv hdev hprot hact))
       intro v _ hown
-      simp only [subK, hfp, if_true] at hown
-      obtain ⟨kv, hkv, hkv2⟩ := List.mem_map.mp hown
+      obtain ⟨kv, hkv, hk, hkv2⟩ := subK_own_true hS hfp hown
       obtain ⟨i, hi⟩ := List.mem_iff_getElem?.mp hkv
-      have hk : kv.1 = ParamKind.val := hS.pval hfp kv hkv
       have hi' : sd.params[i]? = some (ParamKind.val, v) := by
         rw [hi, ← hk, ← hkv2]
       have hm := fpParams_of_param hi'
@@ -660,7 +859,7 @@ theorem pInv_bindW {sd : SubDef} {st : List Val} {w1 : World} (hlen : st.length 
 
 /-- what the callee's activation knows about the source world (its `MCtx.inv`) -/
 def calleeInv (P : PCtx) (X : MCtx) (f : Nat) (sd : SubDef) (st : List Val) : World → Prop :=
-  if P.fp then pInv sd st else P.vinv (f :: X.act)
+  if P.fp then (fun w => pInv sd st w ∧ P.vinv (f :: X.act) w) else P.vinv (f :: X.act)
 
 theorem callee_run {P : PCtx} {fuel : Nat} (hP : ProgOK P) (ihAll : All P fuel) {X : MCtx} {cfg K cur}
     (hR : RoutOK P X cfg K cur)
@@ -711,35 +910,97 @@ theorem callee_run {P : PCtx} {fuel : Nat} (hP : ProgOK P) (ihAll : All P fuel) 
     let fr : GFrame := { fr0 with proto := some (sd.params.length, if sd.hasRet then 1 else 0) }
     let X0 : MCtx := { Pg := X.Pg, r := some (subLabel f), cs := fr0 :: X.cs, G := G, hG := hGf }
     let Xf : MCtx := { Pg := X.Pg, r := some (subLabel f), cs := fr :: X.cs, G := G, hG := hGf,
-                       ign := X.ign, inv := pInv sd st, prot := X.prot, base := st ++ σ', dev := X.dev,
-                       devOvf := X.devOvf }
+                       ign := X.ign, inv := fun w => pInv sd st w ∧ P.vinv (f :: X.act) w, prot := X.prot,
+                       act := f :: X.act, base := st ++ σ', dev := X.dev, devOvf := X.devOvf }
     simp only [prologue, hfp, if_true] at hpro
     unfold Blk at hpro
     have hpre : ReachS X.dev X.ign P.cx X.Pg (fun w => X.inv w ∧ calleeInv P X f sd st (bindW sd st w1)) Xf.inv
         (X.st ⟨cb, i⟩ ⟨st ++ σ', ic, bcs, w1⟩) (Xf.st ⟨bs, 0⟩ (Xf.onBase ⟨[], ic, bcs, bindW sd st w1⟩)) := by
-      intro wm hw _ _
-      refine .inr ⟨wm, ⟨fun x hx => ?_, ?_⟩, pInv_bindW hlen hS.pnodup, ?_⟩
-      · -- the binding only writes ignored slots
-        show getSlot (bindW sd st w1).scratch x = _
-        rw [bindW_scratch, getSlot_foldl_notin _ _ _ ?_]
-        · exact hw.1 x hx
-        · intro hmem
-          obtain ⟨pr, hpr, hpr1⟩ := List.mem_map.mp hmem
-          have := (List.of_mem_zip hpr).1
-          obtain ⟨kv, hkv, hkv2⟩ := List.mem_map.mp this
-          have hin : kv.2 ∈ P.ign := hS.pign hfp kv hkv
-          rw [hR.ign] at hx
-          exact hx (by rw [← hpr1, ← hkv2]; exact hin)
-      · exact hw.2
-      · have s1 : gstepP P.cx X.Pg (X.st ⟨cb, i⟩ ⟨st ++ σ', ic, bcs, wm⟩) = _ := callsub_step hbk hx hl
-        have s2 := proto_step (cx := P.cx) (X := X0) (b := sf) (a := sd.params.length)
-          (r := if sd.hasRet then 1 else 0) (m := ⟨st ++ σ', ic, bcs, wm⟩) hpro rfl rfl rfl
-          (by simp [hlen])
-        have s3 := step_exit (cx := P.cx) (X := Xf) (b := sf) (i := 1) (k := bs) (m := ⟨st ++ σ', ic, bcs, wm⟩)
-          hpro rfl rfl
-        exact (ReachP.step s1).trans ((ReachP.step s2).trans (ReachP.step s3))
+      intro wm hw hI _
+      have hE := hI.2
+      unfold calleeInv at hE
+      rw [hfp] at hE
+      simp only [if_true] at hE
+      have s1 : gstepP P.cx X.Pg (X.st ⟨cb, i⟩ ⟨st ++ σ', ic, bcs, wm⟩) = _ := callsub_step hbk hx hl
+      have s2 := proto_step (cx := P.cx) (X := X0) (b := sf) (a := sd.params.length)
+        (r := if sd.hasRet then 1 else 0) (m := ⟨st ++ σ', ic, bcs, wm⟩) hpro rfl rfl rfl
+        (by simp [hlen])
+      have two : ReachP P.cx X.Pg (X.st ⟨cb, i⟩ ⟨st ++ σ', ic, bcs, wm⟩) (Xf.st ⟨sf, 1⟩ (Xf.onBase ⟨[], ic, bcs, wm⟩)) :=
+        (ReachP.step s1).trans (ReachP.step s2)
+      have hL : ∀ x ∈ refPairs sd, x.1 < sd.params.length ∧ x.2 < 256 := by
+        intro x hx
+        obtain ⟨h1, h2⟩ := mem_refPairs hx
+        exact ⟨h1, (hS.pref hfp _ (List.mem_of_getElem? h2) rfl).1⟩
+      have hops : ({ ops := Instr.proto sd.params.length (if sd.hasRet then 1 else 0) :: refCopies sd,
+                     succ := Succ.next bs } : Block).ops =
+          [Instr.proto sd.params.length (if sd.hasRet then 1 else 0)] ++ (refPairs sd).flatMap
+            (fun x => [Instr.frameDig ((x.1 : Int) - (sd.params.length : Int)), Instr.store x.2]) := by
+        rw [← refCopies_eq]; rfl
+      rcases refCopies_run (X := Xf) (cx := P.cx) (ic := ic) (bcs := bcs) rfl rfl rfl hlen rfl hpro
+        (refPairs sd) _ wm hops hL with hov | hreach
+      · exact .inl ⟨ovfF, X.devOvf, two.halts hov⟩
+      · have s3 := step_exit (cx := P.cx) (X := Xf) (b := sf) (k := bs)
+          (m := Xf.onBase ⟨[], ic, bcs, { wm with scratch := bindAll ((refPairs sd).map
+            (fun x => (x.2, (st.reverse[x.1]?).getD (.u 0)))) wm.scratch }⟩) hpro rfl rfl
+        refine .inr ⟨_, ⟨fun x hx => ?_, ?_⟩, hE, two.trans (hreach.trans (.step s3))⟩
+        · -- a slot outside the ignored ones: a by-reference parameter (copied), or untouched
+          show getSlot (bindW sd st w1).scratch x = getSlot (bindAll _ wm.scratch) x
+          have hkeys : (((sd.params.map (·.2)).zip st.reverse).map (·.1)).Nodup := by
+            rw [List.map_fst_zip (by simp [hlen])]
+            exact hS.pnodup
+          have hkeys' : (((refPairs sd).map (fun x => (x.2, (st.reverse[x.1]?).getD (.u 0)))).map (·.1)).Nodup := by
+            rw [List.map_map]
+            exact refPairs_nodup hS.pnodup
+          rw [bindW_scratch, getSlot_bindAll _ _ _ hkeys, getSlot_bindAll _ _ _ hkeys']
+          by_cases hxp : x ∈ sd.params.map (·.2)
+          · obtain ⟨j, hj⟩ := List.mem_iff_getElem?.mp hxp
+            rw [List.getElem?_map] at hj
+            cases hpj : sd.params[j]? with
+            | none => rw [hpj] at hj; cases hj
+            | some kv =>
+              rw [hpj] at hj
+              simp only [Option.map_some, Option.some.injEq] at hj
+              have hjlt : j < sd.params.length := getElem?_lt hpj
+              have hjv : j < st.reverse.length := by rw [List.length_reverse, hlen]; exact hjlt
+              have hval : st.reverse[j]? = some st.reverse[j] := List.getElem?_eq_getElem hjv
+              cases hk : kv.1 with
+              | val =>
+                exfalso
+                rw [hR.ign] at hx
+                exact hx (hj ▸ hS.pign hfp kv (List.mem_of_getElem? hpj) hk)
+              | ref =>
+                have hm1 : (x, st.reverse[j]) ∈ (sd.params.map (·.2)).zip st.reverse := by
+                  refine List.mem_iff_getElem?.mpr ⟨j, ?_⟩
+                  rw [List.getElem?_zip_eq_some]
+                  refine ⟨?_, hval⟩
+                  rw [List.getElem?_map, hpj, ← hj]
+                  rfl
+                have hpj' : sd.params[j]? = some (ParamKind.ref, x) := by rw [hpj, ← hk, ← hj]
+                have hm2 : (x, st.reverse[j]) ∈ (refPairs sd).map (fun x => (x.2, (st.reverse[x.1]?).getD (.u 0))) :=
+                  List.mem_map.mpr ⟨(j, x), refPairs_of_param hpj', by simp only [hval, Option.getD_some]⟩
+                rw [lookup_eq_some_of_mem _ x _ hkeys hm1, lookup_eq_some_of_mem _ x _ hkeys' hm2]
+          · have hn1 : ((sd.params.map (·.2)).zip st.reverse).lookup x = none := by
+              rw [List.lookup_eq_none_iff]
+              intro pr hpr
+              simp only [bne_iff_ne, ne_eq]
+              intro hpv
+              exact hxp (hpv ▸ (List.of_mem_zip hpr).1)
+            have hn2 : ((refPairs sd).map (fun x => (x.2, (st.reverse[x.1]?).getD (.u 0)))).lookup x = none := by
+              rw [List.lookup_eq_none_iff]
+              intro pr hpr
+              simp only [bne_iff_ne, ne_eq]
+              intro hpv
+              obtain ⟨y, hy, rfl⟩ := List.mem_map.mp hpr
+              obtain ⟨_, h2⟩ := mem_refPairs hy
+              exact hxp (hpv ▸ List.mem_map.mpr ⟨_, List.mem_of_getElem? h2, rfl⟩)
+            rw [hn1, hn2]
+            exact hw.1 x hx
+        · have h2 : wm = { w1 with scratch := wm.scratch } := hw.2
+          generalize wm.scratch = sc at h2
+          subst h2
+          rfl
     have hRK : RoutOK P Xf (subCfg P sd) (subK P.fp P.p sd P.dyn P.strict) (some f) :=
-      .subFp hXP hfp hsd rfl rfl rfl rfl hlen rfl hR.ign rfl hR.dev hR.prot
+      .subFp hXP hfp hsd rfl rfl rfl rfl hlen rfl hR.ign rfl hR.dev hR.prot (List.mem_cons_self ..)
     refine BodyRes.callee hpre (body_run ihAll hS hP hRK (fr := fr) rfl rfl ⟨rfl, rfl⟩ rfl rfl rfl hsh ?_ hev)
     intro ov hov
     simp only [retStack, List.append_nil]
